@@ -1,23 +1,36 @@
-"""C13 On-the-fly trajectory readers never return a torn frame -- BOUNDED stand-in (no contract within reach yet)."""
+"""C13 On-the-fly trajectory readers never return a torn frame: E1 line model for the two text readers + bounded byte-cut enumeration for all three."""
 from __future__ import annotations
 
 LEVEL = "other"
-TRUSTED_BASE = ["CPython file semantics (open/seek/tell/readline), struct, numpy"]
+TRUSTED_BASE = [
+    "CPython file semantics (open/seek/tell/readline), struct, numpy",
+    "LINE MODEL of the text readers' input (contracts/readers.py): what is on disk is m complete lines followed by at most one partial line (a proper prefix of the next true line, no newline, pf fields of which all but the "
+    "last are complete); str.split / int / float / line[-1] are interpreted on that model; the true file is well formed for N atoms (count line, comment / header lines, atom lines with 4 resp. 9 fields, LAMMPS ids a permutation, "
+    "trailing id == leading id exactly when complete).  The model abstracts bytes into lines: cuts INSIDE a line are represented by (pf, last-field-complete), which is what the bounded enumeration cross-checks byte by byte",
+    "ReadAndProcessOnTheFly.read_and_process_content (open, seek(current_position), call the reader; try/except outside the E1 subset) is assumed to start the reader at current_position",
+]
 ASSUMPTIONS = TRUSTED_BASE + [
-    "BOUNDED, never counted as proved: the real xyz_reader / lammpstrj_reader (through ReadAndProcessOnTheFly) and GromacsRunner.get_gromacs_frames are run natively over every single cut point "
-    "(and every pair of cut points for the smallest files) of small trajectories: 1..3 atoms (2..3 for LAMMPS), 1..3 frames, several number formats, unsorted ids, TRR single/double precision",
-    "the E1 line model (DESIGN 5/C13: per-line completeness obligations, TRR size-guard arithmetic) was not built in the time available; this property is therefore NOT decided deductively",
+    "proved per shape (N atoms concrete: xyz 1..3, lammpstrj 2..3; ANY number of lines / frames, any cut): the readline loops of xyz_reader and lammpstrj_reader on the real AST -- every returned frame lies completely on disk and has "
+    "exactly the written values (LAMMPS: at the row of each atom id, with its box), the number returned is exactly the number of complete frames, the position handed to the next call is the end of the last returned frame, "
+    "int()/float() are only applied to complete fields, no exception (this refuted `i % block_size` with block_size 0 on the original tree: fix 26883d1)",
+    "BOUNDED, never counted as proved: the real xyz_reader / lammpstrj_reader (through ReadAndProcessOnTheFly) and GromacsRunner.get_gromacs_frames run natively over every single cut point "
+    "(and every pair of cut points for the smallest files) of small trajectories: 1..3 atoms (2..3 for LAMMPS), 1..3 frames, several number formats incl. CP2K's right-aligned layout, unsorted ids, TRR single/double precision",
+    "the TRR reader (a generator with try/except and byte-size guards) is outside the E1 subset: bounded only",
 ]
 EXPLANATION = (
-    "Bounded stand-in: for each reader and each small trajectory the file is grown through every byte-boundary cut (prefix c1, optionally prefix c2, then the full file); after each stage the real reader is called "
-    "again on the same reader object. Every frame returned at any stage must be value-identical to the frame written at that position, and the concatenation over all stages must be exactly the written frames, "
-    "each once, in order; no call may raise."
+    "Two layers. (1) Deductive: the frame loops of the two text readers are executed symbolically on the real AST over a line model of a file that is still being written, with loop invariants (frames returned so far = complete blocks "
+    "seen, pending rows = atom lines of the open block, position = end of the last returned frame). (2) Bounded stand-in: for each reader and each small trajectory the file is grown through every byte-boundary cut (prefix c1, optionally prefix c2, "
+    "then the full file); after each stage the real reader is called again on the same reader object. Every frame returned at any stage must be value-identical to the frame written at that position, and the concatenation over all stages must be "
+    "exactly the written frames, each once, in order; no call may raise."
 )
 BOUNDS = {"atoms": "1..3", "frames": "1..3", "cuts": "all single cuts; all pairs for files under 160 bytes"}
 
 
 def jobs(tier):
-    return [("py", {"name": n, "module": "props.C13", "fn": "run_reader", "reader": n, "cost": 5}) for n in ("xyz", "lammpstrj", "trr")]
+    js = [("py", {"name": n, "module": "props.C13", "fn": "run_reader", "reader": n, "cost": 5}) for n in ("xyz", "lammpstrj", "trr")]
+    js.append(("e1", {"name": "xyz_reader_loop", "registry": "contracts.readers", "key": "xyz_reader#loop", "clause": "xyz: exactly the complete frames, written values, position, no exception (line model)", "cost": 6, "parallel": 6}))
+    js.append(("e1", {"name": "lammpstrj_reader_loop", "registry": "contracts.readers", "key": "lammpstrj_reader#loop", "clause": "lammpstrj: exactly the complete frames with their boxes, written values at the row of each id, position, no exception (line model)", "cost": 6, "parallel": 6}))
+    return js
 
 
 def _xyz_files():
@@ -33,6 +46,17 @@ def _xyz_files():
                         txt += f"H{a} " + " ".join(fmt(x) for x in coords[a]) + "\n"
                     frames.append([[float(fmt(x)) for x in row] for row in coords])
                 yield f"xyz_a{natoms}_f{nframes}_fmt{fk}", txt.encode(), frames
+    # CP2K's own layout: right-aligned atom count, indented atom lines, wide fixed-point numbers
+    for natoms in (1, 2):
+        for nframes in (1, 2):
+            frames, txt = [], ""
+            for f in range(nframes):
+                coords = [[(-1) ** a * (1.25 + a + 10 * f + 0.5 * c) for c in range(3)] for a in range(natoms)]
+                txt += f"{natoms:8d}\n i = {f:8d}, time = {f * 0.5:12.3f}, E = {-1.5 - f:20.10f}\n"
+                for a in range(natoms):
+                    txt += f"{'H':>3s}" + "".join(f"{x:20.10f}" for x in coords[a]) + "\n"
+                frames.append([[float(f"{x:20.10f}") for x in row] for row in coords])
+            yield f"xyz_cp2k_a{natoms}_f{nframes}", txt.encode(), frames
 
 
 def _lammps_files():
@@ -217,12 +241,42 @@ def run_reader(spec, tier, seed):
     return {"job": kind, "obligations": [ob], "coverage_extra": {f"{kind}_cut_sequences": n}, "samples": [{"reader": kind, "cut_sequences": n}]}
 
 
+def search(obname, limit=None):
+    """A failing byte cut of the reader the obligation belongs to (single cuts of every small file)."""
+    import os
+    import shutil
+    import tempfile
+    fn = obname.split("/")[0]
+    kind = "xyz" if fn.startswith("xyz") else ("lammpstrj" if fn.startswith("lammpstrj") else None)
+    if kind is None:
+        return None
+    work = tempfile.mkdtemp(prefix="c13s-", dir=os.environ.get("VERIF_SCRATCH", "/var/tmp"))
+    try:
+        for name, data, frames in (_xyz_files() if kind == "xyz" else _lammps_files()):
+            for c in range(len(data) + 1):
+                r = _drive_text(kind, data, frames, (c,), work)
+                if r:
+                    w = {"reader": kind, "file": name, "cuts": [c], "detail": r, "content": data.decode()}
+                    return {"witness": w, "native": {"reproduced": True, "violations": [r], "detail": r}}
+    finally:
+        shutil.rmtree(work, ignore_errors=True)
+    return None
+
+
+def relevant(obname, found):
+    """Obligations about exceptions need a native exception; the frame / value / position obligations any torn-frame failure."""
+    texts = " ".join(str(v) for v in (found.get("native") or {}).get("violations", []))
+    about_exceptions = any(k in obname for k in ("zero_division", "index_in_bounds", "never_raises", "int_only", "float_only"))
+    return (" raised " in texts) if about_exceptions and "float_only" not in obname and "int_only" not in obname else bool(texts)
+
+
 def replay(obname, w):
     import os
     import shutil
     import tempfile
-    if not w:
-        return {"reproduced": False, "detail": "no witness"}
+    if not w or "reader" not in w:
+        hit = search(obname)
+        return hit["native"] if hit else {"reproduced": False, "detail": "no failing byte cut of this reader among the enumerated small files"}
     work = tempfile.mkdtemp(prefix="c13r-", dir=os.environ.get("VERIF_SCRATCH", "/var/tmp"))
     try:
         if w["reader"] == "trr":
